@@ -42,6 +42,32 @@ def _params(args, p):
     return args[A_PP][int(pb[p, 0]):int(pb[p, 1])]
 
 
+def ref_bc(hub, args, stack_row, flags_row, queue, fix=None, pop_override=None):
+    """Plain BC through the real (unwrapped) function on private copies; monitors are muted meanwhile.
+    Returns (status, domains row, flags row, queue)."""
+    a = list(args)
+    st = np.zeros(13, dtype=np.int64)
+    stack = np.empty((2, stack_row.shape[0], 2), dtype=np.int32)
+    stack[0] = stack_row
+    flags = np.empty((2, len(flags_row)), dtype=bool)
+    flags[0] = flags_row
+    top = np.zeros(1, dtype=np.uint8)
+    q = queue.copy()
+    if fix is not None:
+        d, v = fix
+        stack[0, d, :] = v
+        q[:] = True
+    a[A_STATS], a[A_STACK], a[A_FLAGS], a[A_TOP], a[A_QUEUE] = st, stack, flags, top, q
+    a[A_UPD] = np.zeros((2, 2), dtype=np.uint16)
+    saved = (hub.subs, hub.pop_override, hub.status_map)
+    hub.subs, hub.pop_override, hub.status_map = {}, pop_override, None
+    try:
+        status = hub.orig_bc(*a)
+    finally:
+        hub.subs, hub.pop_override, hub.status_map = saved
+    return int(status), stack[0], flags[0], q
+
+
 # ================================================================================================= C08 fixpoint
 class Fixpoint(Base):
     def __init__(self, hub, model, opts):
@@ -67,11 +93,44 @@ class Fixpoint(Base):
             self.last_prop = r
             if self.stack:
                 self.stack[-1]["execs"] += 1
+        if not self.stack or self.stack[-1].get("args") is None:
+            return
+        # wake-up audit: every enabled watcher of a bound that moved during the last execution should be queued.
+        # A miss is not a verdict (the wake-up may be redundant); it makes the pass a *suspect* whose entry state is
+        # re-run under a targeted wake-up order at exit (the property quantifies over all wake-up orders).
+        ent = self.stack[-1]
+        args = ent["args"]
+        top = ent["top"]
+        cur = args[A_STACK][top]
+        old = ent["prev_doms"]
+        if prev != -1 and not np.array_equal(cur, old):
+            flags = args[A_FLAGS][top]
+            trig = args[A_TRIG]
+            for d in range(cur.shape[0]):
+                ev = 0
+                if cur[d, MIN] != old[d, MIN]:
+                    ev |= EV_MIN
+                if cur[d, MAX] != old[d, MAX]:
+                    ev |= EV_MAX
+                if ev and cur[d, MIN] == cur[d, MAX]:
+                    ev |= EV_GROUND
+                if ev:
+                    for p in range(len(triggered)):
+                        if flags[p] and (int(trig[d, p]) & ev) and not triggered[p] and p != r:
+                            self.c("wakeup_audit_misses")
+                            if len(ent["suspects"]) < 3:
+                                ent["suspects"].append((p, int(prev), d, ev))
+            self.c("wakeup_audits")
+        ent["prev_doms"] = cur.copy()
 
     def enter(self, idx, args, inner):
+        from nucs.solvers import consistency_algorithms as CA
+
         top = int(args[A_TOP][0])
+        is_bc = idx == CA.CONSISTENCY_ALG_BC
         self.stack.append({"top": top, "doms": args[A_STACK][top].copy(), "flags": args[A_FLAGS][top].copy(),
-                           "execs": 0})
+                           "execs": 0, "args": args if is_bc else None, "queue": args[A_QUEUE].copy(),
+                           "prev_doms": args[A_STACK][top].copy(), "suspects": []})
 
     def _model_props(self, args):
         """The posted constraints in the engine's order, in the framework's vocabulary."""
@@ -148,6 +207,8 @@ class Fixpoint(Base):
                           "last executed: %s)" % (p, name, _params(args, p).tolist(), v0.tolist(), views.tolist(),
                                                   bool(queue[p]), p == self.last_prop),
                           constraint=name, queued=bool(queue[p]), last=(p == self.last_prop))
+        for (sp, mover, sd, sev) in ent.get("suspects", []):
+            self._targeted_schedule(args, ent, sp, mover, sd, sev)
         # greatest fixpoint for exact-BC models (plain BC passes only)
         from nucs.solvers import consistency_algorithms as CA
 
@@ -170,6 +231,59 @@ class Fixpoint(Base):
                         self.fail("C08", "not_the_greatest_fixpoint",
                                   "entry %r: pass result %r differs from the greatest common fixpoint %r" % (
                                       before.tolist(), doms.tolist(), ref))
+
+    def _targeted_schedule(self, args, ent, sp, mover, sd, sev):
+        """Re-runs the pass from its entry state (private copies, real BC) under the wake-up order 'suspect first,
+        mover last' and checks the result for a constraint that still prunes or fails."""
+        def override(triggered, prev):
+            cand = [i for i in range(len(triggered)) if triggered[i] and i != prev]
+            if not cand:
+                return -1
+            if sp in cand:
+                r = sp
+            else:
+                rest = [i for i in cand if i != mover]
+                r = rest[0] if rest else cand[0]
+            triggered[r] = False
+            return r
+
+        self.c("targeted_schedules_run")
+        st, doms, flags, queue = ref_bc(self.hub, args, ent["doms"], ent["flags"], ent["queue"], pop_override=override)
+        if st == P_INC:
+            return
+        top = 0
+        a2 = list(args)
+        stack = np.empty((1, doms.shape[0], 2), dtype=np.int32)
+        stack[0] = doms
+        a2[A_STACK] = stack
+        n = len(args[A_ALGS])
+        for p in range(n):
+            if not flags[p]:
+                continue
+            alg = int(args[A_ALGS][p])
+            name = self.M.NAME_OF.get(alg)
+            if name is None or name == "no_sub_cycle":
+                continue
+            if name == "affine_eq" and queue[p]:
+                continue  # the known skip-self mechanism, judged by the regular check
+            views, idxs, offs = _views(a2, p, 0)
+            v0 = views.copy()
+            f = _unwrapped(self.PP.COMPUTE_DOMAINS_FCTS[alg])
+            saved = self.hub.subs
+            self.hub.subs = {}
+            try:
+                s2 = int(f(views, _params(args, p)))
+            finally:
+                self.hub.subs = saved
+            if s2 == ST_INC or not np.array_equal(views, v0):
+                self.fail("C08", "not_a_fixpoint_under_another_wakeup_order",
+                          "entry %r: with constraint #%d woken before #%d (whose execution moved bounds %d of domain %d "
+                          "without queueing watcher #%d), the pass ends at %r where constraint #%d %s%r %s (views %r -> "
+                          "%r)" % (ent["doms"].tolist(), sp, mover, sev, sd, sp, doms.tolist(), p, name,
+                                   _params(args, p).tolist(), "fails" if s2 == ST_INC else "still prunes",
+                                   v0.tolist(), views.tolist()),
+                          constraint=name, queued=bool(queue[p]), last=False, suspect=[sp, mover, sd, sev])
+                return
 
     def _ofix(self, props, doms, flags):
         """Greatest common fixpoint of the per-constraint operators 'bounds hull of the box of views, written back by
@@ -210,8 +324,16 @@ class Schedule(Base):
         self.rnd = random.Random(opts.get("seed", 0))
         self.distinct = set()
         self.cur = []
+        self.delay_vars = opts.get("delay_vars")  # constraints posted on exactly these variables run last
+        self.delay = set()
         hub.pop_override = self.pop
         hub.on("alg_enter", self.enter)
+
+    def bind(self, solver):
+        if self.delay_vars is not None:
+            for i, (vs, alg, pr) in enumerate(solver.problem.propagators):
+                if [int(v) for v in vs] == list(self.delay_vars):
+                    self.delay.add(i)
 
     def enter(self, idx, args, inner):
         if self.cur:
@@ -222,6 +344,9 @@ class Schedule(Base):
         cand = [i for i in range(len(triggered)) if triggered[i] and i != prev]
         if not cand:
             return -1
+        if self.delay:
+            early = [i for i in cand if i not in self.delay]
+            cand = early or cand
         r = self.rnd.choice(cand)
         triggered[r] = False
         self.c("pops")
